@@ -352,6 +352,35 @@ func init() {
 						c.note("tls ctor=%s cert=%s behaviour=%s", ctor, ck, bh)
 						c.op("tlsdial %s %s %d", ck, bh, int64(to/time.Millisecond))
 						c.res("%s created=%d elapsed=%d", outcome, created, int64(elapsed/time.Millisecond))
+						// the same transport then dials ANOTHER host, whose server presents this very certificate
+						// (valid for good.example.com only): the name check must follow the dialed address
+						if bh == "handshake" {
+							ct.srvRemote = NewFixedRemote("other.example.com:443")
+							go func() {
+								xp, err := ct.Dial(context.Background())
+								ch <- res{xp, err}
+							}()
+							var r2 res
+							select {
+							case r2 = <-ch:
+							case <-time.After(10 * time.Minute):
+								r2 = res{nil, fmt.Errorf("DIAL-BLOCKED")}
+							}
+							out2 := "ok"
+							if r2.err != nil {
+								out2 = "fail"
+							}
+							n++
+							c.note("tls ctor=%s cert=%s second-dial-other-host", ctor, ck)
+							if strings.HasPrefix(ctor, "config") {
+								// an explicit configuration fixes the server name: the second dial is judged like the first
+								c.op("tlsdial %s %s %d", ck, bh, int64(to/time.Millisecond))
+								c.res("%s created=%d elapsed=0", out2, map[bool]int{true: 1, false: 0}[out2 == "ok"])
+							} else {
+								c.op("tlsdial2 %s", ck)
+								c.res("%s", out2)
+							}
+						}
 						ct.Close()
 						for _, sc := range d.conns {
 							sc.Close()
